@@ -80,24 +80,17 @@ theorem edata_of_mgr {σ σ' : St} (hr : σ'.ereg = σ.ereg)
     simp only [St.mgr, Mgr.released] at h1 h2 h3 h4 h5
     simp only [St.edata, h1, h2, h3, h4, h5, h6, h7, h8]
 
-theorem edata_mgrDone (σ : St) (t : Nat) (k : MK) : (mgrDone σ t k).edata = σ.edata := by
-  apply edata_of_mgr (ereg_mgrDone σ t k)
-  rw [mgrDone_mgr]; split
-  · right; left; rfl
-  · left; rfl
+theorem edata_mgrDone (σ : St) (t : Nat) (k : MK) : (mgrDone σ t k).edata = σ.edata :=
+  edata_of_mgr (ereg_mgrDone σ t k) (Or.inl (mgrDone_mgr σ t k))
 
 theorem edata_freeTail (σ : St) (t : Nat) (k : MK) : (freeTail σ t k).edata = σ.edata := by
   apply edata_of_mgr (ereg_freeTail σ t k)
-  rcases freeTail_cases σ t k with ⟨hm, _⟩ | ⟨_, hm, _⟩ | ⟨_, hm, _⟩
+  rcases freeTail_cases σ t k with ⟨hm, _⟩ | ⟨hm, _⟩
   · left; exact hm
-  · right; left; exact hm
   · right; right; exact hm
 
-theorem edata_freeEnd (σ : St) (t : Nat) (k : MK) : (freeEnd σ t k).edata = σ.edata := by
-  apply edata_of_mgr (ereg_freeEnd σ t k)
-  rcases freeEnd_cases σ t k with ⟨_, hm, _⟩ | ⟨_, hm, _⟩
-  · right; left; exact hm
-  · right; right; exact hm
+theorem edata_freeEnd (σ : St) (t : Nat) (k : MK) : (freeEnd σ t k).edata = σ.edata :=
+  edata_of_mgr (ereg_freeEnd σ t k) (Or.inr (Or.inr (freeEnd_cases σ t k).1))
 
 /-- where `mgrDone` lands: the second `free` of `remove_reader` (which needs the removal facts), or a program
 point without facts -/
@@ -125,16 +118,12 @@ theorem freeTail_eloc (σ' σ1 : St) (t : Nat) (k : MK) (tk : Nat)
   unfold freeTail
   split
   · simp only [ELoc, St.goto, St.setTh, upd_same]; exact h
-  · split
-    · exact mgrDone_eloc σ' σ1 t _ tk h
-    · exact mgrDone_eloc σ' _ t _ tk h
+  · exact mgrDone_eloc σ' _ t _ tk h
 
 theorem freeEnd_eloc (σ' σ1 : St) (t : Nat) (k : MK) (tk : Nat)
     (h : k.isRm1 = true → remFacts σ' (σ1.th t).s) : ELoc σ' tk ((freeEnd σ1 t k).th t) := by
   unfold freeEnd
-  split
-  · exact mgrDone_eloc σ' σ1 t _ tk h
-  · exact mgrDone_eloc σ' _ t _ tk h
+  exact mgrDone_eloc σ' _ t _ tk h
 
 /-! ### steps that change no data -/
 
@@ -202,7 +191,7 @@ theorem einv_run_u2 {σ : St} (x inp : Nat) (k : MK) (e : Nat) (I : EInv σ) (M 
     (hpc : (σ.th x).pc = .u2 k e) : EInv (stepRun σ x inp).2 := by
   have hl := I.loc x; simp only [ELoc, hpc] at hl
   have hok := M.ok x; rw [hpc] at hok
-  have hk1 := (ok2 hok).2
+  have hk1 := isRm1_of_ok hok
   have hd : (stepRun σ x inp).2.edata = σ.edata := by
     simp only [stepRun, hpc]; split
     · rw [edata_mgrDone]; rfl
@@ -526,7 +515,7 @@ theorem einv_run_u3 {σ : St} (x inp : Nat) (k : MK) (e : Nat) (I : EInv σ) (M 
   have hl := I.loc x; simp only [ELoc, hpc] at hl
   have hml := M.loc x; rw [hpc] at hml; simp only [MLoc] at hml
   have hok := M.ok x; rw [hpc] at hok
-  have hk1 := (ok2 hok).2
+  have hk1 := isRm1_of_ok hok
   have hr := reg_same_of_ereg (stepRun_ereg_same σ x inp (not_reg_pc (by rw [hpc]; rfl)))
   have e1 : (stepRun σ x inp).2.toks = σ.toks ∧ (stepRun σ x inp).2.freed = σ.freed ∧ (stepRun σ x inp).2.tofree = σ.tofree ∧
       (stepRun σ x inp).2.iepoch = σ.iepoch ∧ (stepRun σ x inp).2.tokv = upd σ.tokv (tokOf σ x) e := by
@@ -570,7 +559,7 @@ theorem no_scanner_of_owner {σ : St} (M : MInvS σ) {x u : Nat} (hx : σ.mgrOwn
 theorem einv_run_gt2 {σ : St} (x inp : Nat) (k : MK) (I : EInv σ) (M : MInvS σ) (K : EStepOK σ x)
     (hpc : (σ.th x).pc = .gt2 k) : EInv (stepRun σ x inp).2 := by
   have hok := M.ok x; rw [hpc] at hok
-  have hk1 := (ok2 hok).2
+  have hk1 := isRm1_of_ok hok
   have hown : σ.mgrOwner = some x := by
     have := (M.ownM x).mp (by rw [hpc]; rfl); simpa [St.mgr] using this
   have hr := reg_same_of_ereg (stepRun_ereg_same σ x inp (not_reg_pc (by rw [hpc]; rfl)))
